@@ -17,7 +17,7 @@ import inferno
 from inferno.neural import (LIF, ALIF, GLIF1, GLIF2, QIF, Izhikevich, EIF, AdEx, DeltaCurrent, DeltaPlusCurrent, SingleExponentialCurrent,
                             DoubleExponentialCurrent, LinearDense, LinearDirect, LinearLateral, Conv2D, Serial, Biclique, RecurrentSerial)
 
-from mc.common import Tally
+from mc.common import Tally, Guard
 from mc.pool import run_shards
 from checks.c03_neurons import HP, CLS, shifted_hp, ADAPT_THRESH, ADAPT_CURR, get_adapt, set_adapt
 
@@ -214,7 +214,10 @@ def independence_shard(kind, args, T, Bs, path="ctor"):
                 ok = True
                 for t in range(T):
                     x = torch.tensor([row(h[t]) for h in tp], dtype=dtype)
+                    g = Guard(x)
                     obs = step(obj, x)
+                    obs = {k: v.clone() for k, v in obs.items()}
+                    g.release(tally, f"input-mutated:{kind}:{args[0]}{pk}", {**case, "step": t})
                     for k, v in obs.items():
                         for b in range(B):
                             ref = single[tp[b]][t][k]
